@@ -17,8 +17,18 @@
 (* was mixed in is equal.  A second world differs by an edit (a set of     *)
 (* atoms; the design configurations use single atoms).                     *)
 (*                                                                         *)
-(* w.lih = FALSE is the code as it is (external legal comments are not     *)
-(* mixed into the isolated hash); TRUE is the candidate repair.            *)
+(* Every ingredient of the two hashes is one ATOM (or one option) of the   *)
+(* world, and w.drop names the ingredients a (mutated) implementation      *)
+(* leaves out: the design is w.drop = {}; HashMC checks that every         *)
+(* ingredient is necessary (dropping it falsifies a property for some      *)
+(* world and single-atom edit), so an edit that changes ONLY that atom is  *)
+(* what a replay needs in order to see such a defect.                      *)
+(*                                                                         *)
+(* w.lih: external legal comments are mixed into the isolated hash (TRUE   *)
+(* since fix 917a158).  w.mih: the source map mode and the legal comment   *)
+(* mode (which decide the link comments appended AFTER hashing) are mixed  *)
+(* into the isolated hash; FALSE is the transcription of the code before   *)
+(* the repair found by this check.                                         *)
 (***************************************************************************)
 EXTENDS Integers, Sequences, FiniteSets, TLC
 
@@ -32,13 +42,18 @@ None == -1
 (*  hashedC : [chunks -> BOOLEAN]         name template contains [hash]    *)
 (*  hashedA : BOOLEAN                     asset template contains [hash]   *)
 (*  pp      : BOOLEAN                     a public path is configured      *)
-(*  sm      : "none" | "linked" | "external" | "inline"                    *)
+(*  sm      : "none" | "linked" | "external" | "inline" | "both"           *)
 (*  legal   : "none" | "inline" | "eof" | "linked" | "external"            *)
-(*  lih     : BOOLEAN  external legal comments are mixed into the hash   *)
+(*  lih,mih : BOOLEAN  (see above)     drop : set of ingredient names      *)
+(*  css     : [chunks -> BOOLEAN]  a CSS chunk (its part ranges are not    *)
+(*            hashed)                                                      *)
 (*  fake    : [chunks -> BOOLEAN]  the input text contains a string of the *)
 (*            placeholder shape (with a foreign prefix)                    *)
-(* atoms: code, parts, tmpl, smap, legalv : [chunks -> Nat], ppv : Nat,    *)
-(*        abytes : [assets -> Nat]      (legalv = 0: no legal comment)     *)
+(* atoms: code, parts, tmpl, legalv : [chunks -> Nat], ppv : Nat,          *)
+(*        smP, smM, smS : [chunks -> Nat]  the three source map pieces     *)
+(*          (prefix = sources, sourceRoot, sourcesContent; mappings;       *)
+(*          suffix = names), abytes : [assets -> Nat], atpl : Nat (the     *)
+(*          asset name template)        (legalv = 0: no legal comment)     *)
 (***************************************************************************)
 
 RECURSIVE SortedSeq(_)
@@ -51,24 +66,37 @@ SeqOfStrSet(S) == IF S = {} THEN <<>>
                   ELSE LET m == CHOOSE x \in S : TRUE IN <<m>> \o SeqOfStrSet(S \ {m})
 
 \* legal comment text that goes into the code pieces (inline / end of file)
-InlineLegal(w, c) == IF w.legal \in {"inline", "eof"} THEN w.legalv[c] ELSE 0
+InlineLegal(w, c) == IF w.legal \in {"inline", "eof"} /\ w.legalv[c] # 0 THEN <<w.legal, w.legalv[c]>> ELSE <<>>
 \* chunk.externalLegalComments (linked / external), 0 = empty
 ExtLegal(w, c) == IF w.legal \in {"linked", "external"} THEN w.legalv[c] ELSE 0
-HasMap(w) == w.sm \in {"linked", "external"}
+HasMap(w) == w.sm \in {"linked", "external", "both"}
+InlineMap(w) == w.sm \in {"inline", "both"}
+
+Ingredients == {"parts", "tmpl", "pp", "pieces", "legal", "smP", "smM", "smS", "modes", "imports", "assetpath"}
+Kept(w, d) == d \notin w.drop
 
 \* the data between the placeholders: the printed code (with inline legal
 \* comments); the number of pieces is the number of placeholders + 1
 Pieces(w, c) == <<w.code[c], InlineLegal(w, c), Cardinality(w.imp[c]) + Cardinality(w.aref[c]), w.fake[c]>>
 
-\* generateIsolatedHash: part ranges, final template, public path (if set),
-\* pieces, source map (prefix/mappings/suffix are empty without source maps)
+\* the link comments appended to the chunk after hashing: which ones there
+\* are is decided by the source map mode and the legal comment mode
+SmLinkKind(w) == CASE w.sm = "linked" -> "L" [] w.sm = "inline" -> "I" [] w.sm = "both" -> "B" [] OTHER -> "-"
+LegalLinkKind(w, c) == IF w.legal = "linked" /\ ExtLegal(w, c) # 0 THEN "C" ELSE "-"
+
+\* generateIsolatedHash: part ranges (JS chunks only), final template, public
+\* path (if set), pieces, external legal comments, the three source map
+\* pieces (empty without source maps)
 Iso(w, c) ==
-  [ parts  |-> w.parts[c],
-    tmpl   |-> <<c, w.tmpl[c]>>,
-    pp     |-> IF w.pp THEN w.ppv ELSE None,
-    pieces |-> Pieces(w, c),
-    sm     |-> IF w.sm # "none" THEN w.smap[c] ELSE None,
-    legal  |-> IF w.lih /\ ExtLegal(w, c) # 0 THEN ExtLegal(w, c) ELSE None ]
+  [ parts  |-> IF Kept(w, "parts") /\ ~w.css[c] THEN w.parts[c] ELSE None,
+    tmpl   |-> IF Kept(w, "tmpl") THEN <<c, w.tmpl[c]>> ELSE <<c, None>>,
+    pp     |-> IF w.pp /\ Kept(w, "pp") THEN w.ppv ELSE None,
+    pieces |-> IF Kept(w, "pieces") THEN Pieces(w, c) ELSE <<>>,
+    smP    |-> IF w.sm # "none" /\ Kept(w, "smP") THEN w.smP[c] ELSE None,
+    smM    |-> IF w.sm # "none" /\ Kept(w, "smM") THEN w.smM[c] ELSE None,
+    smS    |-> IF w.sm # "none" /\ Kept(w, "smS") THEN w.smS[c] ELSE None,
+    legal  |-> IF w.lih /\ Kept(w, "legal") /\ ExtLegal(w, c) # 0 THEN ExtLegal(w, c) ELSE None,
+    modes  |-> IF w.mih /\ Kept(w, "modes") THEN <<SmLinkKind(w), LegalLinkKind(w, c)>> ELSE <<>> ]
 
 \* A path is a record of one shape for all kinds of files, so that paths of
 \* different kinds can be compared: kind, owner (chunk number or asset id as a
@@ -79,7 +107,7 @@ Iso(w, c) ==
 Path(kind, owner, tmpl, final, ah) == [a_kind |-> kind, b_owner |-> owner, c_tmpl |-> tmpl, d_ah |-> ah, e_final |-> final]
 
 \* names of assets: the hash of the bytes only (bundler.go)
-AName(w, a) == Path("asset", a, None, <<>>, IF w.hashedA THEN w.abytes[a] ELSE None)
+AName(w, a) == Path("asset", a, w.atpl, <<>>, IF w.hashedA THEN w.abytes[a] ELSE None)
 
 \* one element of what is written into the final hash: a relative asset path or an isolated hash
 HA(p) == [a |-> <<p>>, i |-> <<>>]
@@ -93,9 +121,9 @@ AssetPathSeq(w, as) == IF as = <<>> THEN <<>> ELSE <<HA(AName(w, Head(as)))>> \o
 RECURSIVE Visit(_, _, _), VisitAll(_, _, _)
 Visit(w, c, acc) ==
   IF c \in acc.seen THEN acc
-  ELSE LET a1 == VisitAll(w, SortedSeq(w.imp[c]), [seen |-> acc.seen \cup {c}, out |-> acc.out])
+  ELSE LET a1 == VisitAll(w, IF Kept(w, "imports") THEN SortedSeq(w.imp[c]) ELSE <<>>, [seen |-> acc.seen \cup {c}, out |-> acc.out])
        IN [seen |-> a1.seen,
-           out  |-> a1.out \o AssetPathSeq(w, SeqOfStrSet(w.aref[c])) \o <<HI(Iso(w, c))>>]
+           out  |-> a1.out \o (IF Kept(w, "assetpath") THEN AssetPathSeq(w, SeqOfStrSet(w.aref[c])) ELSE <<>>) \o <<HI(Iso(w, c))>>]
 VisitAll(w, cs, acc) == IF cs = <<>> THEN acc ELSE VisitAll(w, Tail(cs), Visit(w, Head(cs), acc))
 
 Final(w, c) == Visit(w, c, [seen |-> {}, out |-> <<>>]).out
@@ -137,7 +165,7 @@ RECURSIVE Subst(_, _)
 Subst(w, toks) == IF toks = <<>> THEN <<>> ELSE <<SubstTok(w, Head(toks))>> \o Subst(w, Tail(toks))
 
 \* the finalised source map: the mappings shifted by the substituted paths
-FinalMap(w, c) == [smap |-> w.smap[c], shifts |-> {Ref(w, NameOf(w, d)) : d \in w.imp[c]} \cup {Ref(w, AName(w, a)) : a \in w.aref[c]}]
+FinalMap(w, c) == [smap |-> <<w.smP[c], w.smM[c], w.smS[c]>>, shifts |-> {Ref(w, NameOf(w, d)) : d \in w.imp[c]} \cup {Ref(w, AName(w, a)) : a \in w.aref[c]}]
 
 \* Bytes have one shape for all kinds of files as well
 Bytes(body, legal, smlink, sminl, raw) == [body |-> body, legal |-> legal, smlink |-> smlink, sminl |-> sminl, raw |-> raw]
@@ -145,7 +173,7 @@ ChunkBytes(w, c) ==
   Bytes(Subst(w, Inter(w, c)),
         IF w.legal = "linked" /\ ExtLegal(w, c) # 0 THEN <<Ref(w, LegalName(w, c))>> ELSE <<>>,
         IF w.sm = "linked" THEN <<Ref(w, MapName(w, c))>> ELSE <<>>,
-        IF w.sm = "inline" THEN <<FinalMap(w, c)>> ELSE <<>>,
+        IF InlineMap(w) THEN <<FinalMap(w, c)>> ELSE <<>>,
         None)
 
 UsedAssets(w) == UNION {w.aref[c] : c \in w.chunks}
@@ -184,10 +212,16 @@ Apply1(w, e) ==
   CASE e.k = "code"   -> [w EXCEPT !.code = Bump(@, e.c)]
     [] e.k = "parts"  -> [w EXCEPT !.parts = Bump(@, e.c)]
     [] e.k = "tmpl"   -> [w EXCEPT !.tmpl = Bump(@, e.c)]
-    [] e.k = "smap"   -> [w EXCEPT !.smap = Bump(@, e.c)]
+    [] e.k = "smP"    -> [w EXCEPT !.smP = Bump(@, e.c)]
+    [] e.k = "smM"    -> [w EXCEPT !.smM = Bump(@, e.c)]
+    [] e.k = "smS"    -> [w EXCEPT !.smS = Bump(@, e.c)]
     [] e.k = "legal"  -> [w EXCEPT !.legalv = Bump(@, e.c)]
     [] e.k = "pp"     -> [w EXCEPT !.ppv = @ + 1]
+    [] e.k = "ppon"   -> [w EXCEPT !.pp = TRUE]
     [] e.k = "asset"  -> [w EXCEPT !.abytes = Bump(@, e.a)]
+    [] e.k = "atpl"   -> [w EXCEPT !.atpl = @ + 1]
+    [] e.k = "smmode" -> [w EXCEPT !.sm = e.to]
+    [] e.k = "legalmode" -> [w EXCEPT !.legal = e.to]
     [] e.k = "import" -> [w EXCEPT !.imp = [@ EXCEPT ![e.c] = @ \cup {e.d}], !.code = Bump(@, e.c)]
 RECURSIVE ApplySeq(_, _)
 ApplySeq(w, es) == IF es = <<>> THEN w ELSE ApplySeq(Apply1(w, Head(es)), Tail(es))
